@@ -85,7 +85,7 @@ func FuzzC03(f *testing.F) {
 		p := pc[int(idx)%len(pc)]
 		x := string(qb)
 		err := guard("lookup on a Complete trie", func() error {
-			return checkExact(p.st, p.m, x, p.c.HasVals && p.c.Enc != "Dummy")
+			return checkExact(p.st, p.m, x, p.c.HasVals && p.c.Enc != "Dummy" && p.c.Enc != "OptU16")
 		})
 		if err != nil {
 			cc := *p.c
@@ -98,7 +98,7 @@ func FuzzC03(f *testing.F) {
 // relationsC10 is the per-query oracle of C10 (same relations as checkC10).
 func relationsC10(p pooled, x string) error {
 	c, st := p.c, p.st
-	valued := c.HasVals && c.Enc != "Dummy"
+	valued := c.HasVals && c.Enc != "Dummy" && c.Enc != "OptU16"
 	return guard(fmt.Sprintf("lookup of %s", q(x)), func() error {
 		v, found := st.Get(x)
 		id := st.GetID(x)
